@@ -514,7 +514,7 @@ impl<'a> LGen<'a> {
             }
             11 => {
                 self.small_expr(depth - 1);
-                let op = self.rng.pick_s(&["+", "..", "==", "and", "or", "//", "*"]);
+                let op = self.rng.pick_s(&["+", "..", "==", "and", "or", "//", "*", "<", ">", "<=", "~=", "^", "-"]);
                 self.t(op);
                 self.small_expr(depth - 1);
             }
